@@ -2,6 +2,8 @@
 //@ props C05 C18
 //@ verus-args --rlimit 100
 //@ gsubst `impl AsRef<MerkleHash>` => `MerkleHash` :: R11 narrowing at the only instance used by the callers under proof (a `MerkleHash` by value; `as_ref` is then the identity impl of merklehash/src/data_hash.rs:83)
+//@ gsubst `PathBuf` => `VxPathBuf` :: R11 stub type (std::path::PathBuf; never inspected by the functions under proof)
+//@ gsubst `SystemTime` => `VxSystemTime` :: R11 stub type (std::time::SystemTime; never inspected)
 #![feature(allocator_api)]
 #![allow(non_snake_case, unused)]
 use vstd::prelude::*;
@@ -13,46 +15,8 @@ global size_of VxU64x4 == 32;   // checked by rustc (static assertion emitted by
 
 //@ include prelude/ims_merklehash.rs
 
-// ---- dependencies ---------------------------------------------------------------------------------------------------
-pub type HMACKey = MerkleHash;
-// blake3 keyed hash: opaque
-pub uninterp spec fn spec_hmac(h: MerkleHash, key: MerkleHash) -> MerkleHash;
-impl MerkleHash {
-    #[verifier::external_body]
-    pub fn hmac(&self, key: HMACKey) -> (r: MerkleHash) ensures r == spec_hmac(*self, key) { unimplemented!() }
-    // `impl AsRef<DataHash> for DataHash { fn as_ref(&self) -> &DataHash { self } }`
-    pub fn as_ref(&self) -> (r: &MerkleHash) ensures *r == *self { self }
-}
+//@ include prelude/shq_io.rs
 
-pub struct IoError { pub x: u8 }                       // std::io::Error
-pub enum MDBShardError { IOError(IoError), Other(u8) }  // mdb_shard::error::MDBShardError (`#[from] io::Error`)
-impl vstd::std_specs::convert::FromSpecImpl<IoError> for MDBShardError {
-    open spec fn obeys_from_spec() -> bool { true }
-    open spec fn from_spec(e: IoError) -> Self { MDBShardError::IOError(e) }
-}
-impl From<IoError> for MDBShardError {
-    fn from(e: IoError) -> (r: Self) { MDBShardError::IOError(e) }
-}
-pub type Result<T> = std::result::Result<T, MDBShardError>;
-pub enum SeekFrom { Start(u64), End(i64), Current(i64) } // std::io::SeekFrom
-
-// The reader: a positioned byte stream. `bytes` is the whole file, `pos` the cursor (may lie past the end).
-pub trait VxStream {
-    spec fn bytes(&self) -> Seq<u8>;
-    spec fn pos(&self) -> int;
-}
-pub trait Read: VxStream { }
-pub trait Seek: VxStream {
-    // std::io::Seek::seek for files / cursors: absolute or relative repositioning, the content is untouched
-    fn seek(&mut self, to: SeekFrom) -> (r: std::result::Result<u64, IoError>)
-        ensures
-            final(self).bytes() == old(self).bytes(),
-            r is Ok ==> match to {
-                SeekFrom::Start(n) => final(self).pos() == n,
-                SeekFrom::Current(d) => final(self).pos() == old(self).pos() + d && final(self).pos() >= 0,
-                SeekFrom::End(d) => final(self).pos() == old(self).bytes().len() + d && final(self).pos() >= 0,
-            };
-}
 
 //@ extract mdb_shard/src/cas_structs.rs struct CASChunkSequenceHeader
 //@ end
@@ -66,14 +30,18 @@ pub trait Seek: VxStream {
 //@ end
 //@ extract mdb_shard/src/shard_format.rs struct MDBShardInfo
 //@ end
+pub struct VxPathBuf { pub x: u8 }
+pub struct VxSystemTime { pub x: u8 }
+//@ extract mdb_shard/src/shard_file_handle.rs struct MDBShardFile
+//@ end
 //@ extract mdb_shard/src/shard_format.rs const MDB_CAS_INFO_ENTRY_SIZE
 //@ subst `const MDB_CAS_INFO_ENTRY_SIZE: usize =` => `exec const MDB_CAS_INFO_ENTRY_SIZE: usize ensures MDB_CAS_INFO_ENTRY_SIZE == 48 {` :: Verus syntax for a constant computed by exec calls (`size_of`); the value 48 is a proof obligation
 //@ subst `size_of::<u32>();` => `size_of::<u32>() }` :: closing brace of the exec-const block
 //@ end
 
-// ---- the 48-byte record codec (assumed here; field order checked against `serialize` by K-ENTRYCODEC) ---------------
-uninterp spec fn decode_header(rec: Seq<u8>) -> CASChunkSequenceHeader;
-uninterp spec fn decode_entry(rec: Seq<u8>) -> CASChunkSequenceEntry;
+//@ include prelude/ims_sum.rs
+//@ include prelude/shq_vocab.rs
+
 
 impl CASChunkSequenceHeader {
     // assumed: a successful call decoded the 48 bytes at the cursor and advanced it by 48
@@ -97,29 +65,6 @@ impl CASChunkSequenceEntry {
     { unimplemented!() }
 }
 
-// ---- shard view: the cas-info section is a flat run of 48-byte records starting at `base`; a block at flat index b is a
-// header record followed by `num_entries` entry records -------------------------------------------------------------------
-spec fn rec(bytes: Seq<u8>, base: int, idx: int) -> Seq<u8> { bytes.subrange(base + 48 * idx, base + 48 * idx + 48) }
-spec fn blk_header(bytes: Seq<u8>, base: int, b: int) -> CASChunkSequenceHeader { decode_header(rec(bytes, base, b)) }
-spec fn blk_entry(bytes: Seq<u8>, base: int, b: int, j: int) -> CASChunkSequenceEntry { decode_entry(rec(bytes, base, b + 1 + j)) }
-spec fn blk_entries(bytes: Seq<u8>, base: int, b: int) -> Seq<CASChunkSequenceEntry> {
-    Seq::new(blk_header(bytes, base, b).num_entries as nat, |j: int| blk_entry(bytes, base, b, j))
-}
-spec fn is_bookend(h: CASChunkSequenceHeader) -> bool { h.cas_hash == bookend_hash() }
-pub uninterp spec fn bookend_hash() -> MerkleHash;
-// flat indices of the block headers of the section, walking header -> next header until the bookend / end of file
-spec fn block_starts(bytes: Seq<u8>, base: int, b: int, fuel: nat) -> Seq<int> decreases fuel {
-    if fuel == 0 || b < 0 || base + 48 * b + 48 > bytes.len() || is_bookend(blk_header(bytes, base, b)) { Seq::empty() }
-    else { seq![b] + block_starts(bytes, base, b + 1 + blk_header(bytes, base, b).num_entries, (fuel - 1) as nat) }
-}
-// the section as a sequence of (header, entries)
-spec fn cas_section(bytes: Seq<u8>, base: int) -> Seq<(CASChunkSequenceHeader, Seq<CASChunkSequenceEntry>)> {
-    block_starts(bytes, base, 0, bytes.len()).map(|i: int, b: int| (blk_header(bytes, base, b), blk_entries(bytes, base, b)))
-}
-
-spec fn sum_unpacked(s: Seq<CASChunkSequenceEntry>, a: int, b: int) -> int decreases b - a {
-    if a >= b { 0 } else { sum_unpacked(s, a, b - 1) + s[b - 1].unpacked_segment_bytes as int }
-}
 proof fn lemma_sum_split(s: Seq<CASChunkSequenceEntry>, a: int, b: int, c: int)
     requires a <= b <= c,
     ensures sum_unpacked(s, a, c) == sum_unpacked(s, a, b) + sum_unpacked(s, b, c), sum_unpacked(s, a, b) >= 0, sum_unpacked(s, b, c) >= 0,
@@ -129,35 +74,6 @@ proof fn lemma_sum_split(s: Seq<CASChunkSequenceEntry>, a: int, b: int, c: int)
     else if a < b { lemma_sum_split(s, a, b - 1, b - 1); assert(sum_unpacked(s, b, c) == 0); }
 }
 
-// keyed form of a query hash under the shard's key: hmac iff the key is not the zero key
-spec fn keyed(key: MerkleHash, h: MerkleHash) -> MerkleHash { if key != zero_hash() { spec_hmac(h, key) } else { h } }
-
-// C05 for an on-disk block: "the first n query hashes are stored in xorb X at chunks [a, a+n)" is true of the recorded
-// (on-disk, possibly keyed) chunk hashes of X = (xh, xs), and the byte count is the sum of those chunks' lengths
-spec fn truthful(xh: CASChunkSequenceHeader, xs: Seq<CASChunkSequenceEntry>, key: MerkleHash, q: Seq<MerkleHash>, n: int, fse: FileDataSequenceEntry) -> bool {
-    &&& 1 <= n <= q.len()
-    &&& fse.cas_hash == xh.cas_hash
-    &&& fse.chunk_index_end == fse.chunk_index_start + n
-    &&& fse.chunk_index_end <= xs.len()
-    &&& forall|k: int| 0 <= k < n ==> (#[trigger] xs[fse.chunk_index_start + k]).chunk_hash == keyed(key, q[k])
-    &&& fse.unpacked_segment_bytes == sum_unpacked(xs, fse.chunk_index_start as int, fse.chunk_index_end as int)
-}
-
-// a candidate position the lookup table of a well-formed shard can name: the block lies inside the file, the chunk offset
-// inside the block, and the block's byte total fits the header's u32 `num_bytes_in_cas`
-spec fn valid_pos(bytes: Seq<u8>, base: int, b: int, off: int) -> bool {
-    &&& 0 <= base && 0 <= b
-    &&& bytes.len() <= i64::MAX
-    &&& base + 48 * (b + 1 + blk_header(bytes, base, b).num_entries) <= bytes.len()
-    &&& 0 <= off < blk_header(bytes, base, b).num_entries
-    &&& sum_unpacked(blk_entries(bytes, base, b), 0, blk_header(bytes, base, b).num_entries as int) <= u32::MAX
-}
-
-// what the chunk lookup table of a well-formed shard (as written by `serialize_from`) may name: a position inside a block
-// of the cas section
-spec fn lookup_pos_ok(bytes: Seq<u8>, base: int, b: int, off: int) -> bool {
-    valid_pos(bytes, base, b, off) && block_starts(bytes, base, 0, bytes.len()).contains(b)
-}
 proof fn lemma_block_in_section(bytes: Seq<u8>, base: int, b: int)
     requires block_starts(bytes, base, 0, bytes.len()).contains(b),
     ensures exists|i: int| 0 <= i < cas_section(bytes, base).len()
@@ -222,18 +138,10 @@ impl MDBShardInfo {
 //@ rules R4c
 //@ contract
         requires
-            valid_pos(old(reader).bytes(), self.metadata.cas_info_offset as int, cas_entry_index as int, cas_chunk_offset as int),
+            direct_pre(old(reader).bytes(), *self, cas_entry_index, cas_chunk_offset),
         ensures
             final(reader).bytes() == old(reader).bytes(),
-            /*@C05,C18*/ match r {
-                Ok(Some((n, fse))) => truthful(
-                        blk_header(old(reader).bytes(), self.metadata.cas_info_offset as int, cas_entry_index as int),
-                        blk_entries(old(reader).bytes(), self.metadata.cas_info_offset as int, cas_entry_index as int),
-                        self.metadata.chunk_hash_hmac_key, unkeyed_query_hashes@, n as int, fse)
-                    && fse.chunk_index_start == cas_chunk_offset
-                    && fse.cas_flags == blk_header(old(reader).bytes(), self.metadata.cas_info_offset as int, cas_entry_index as int).cas_flags,
-                _ => true,
-            },
+            /*@C05,C18*/ direct_post(old(reader).bytes(), *self, unkeyed_query_hashes@, cas_entry_index, cas_chunk_offset, r),
 //@ body-start
         let ghost bytes = reader.bytes(); let ghost base = self.metadata.cas_info_offset as int;
         let ghost b = cas_entry_index as int; let ghost off = cas_chunk_offset as int;
@@ -269,6 +177,34 @@ impl MDBShardInfo {
                 assert(chunk == xs[off + i]);
                 lemma_sum_split(xs, 0, off, off + i + 1); lemma_sum_split(xs, 0, off + i + 1, xs.len() as int);
             }
+//@ end
+}
+
+
+// ---- the file-handle wrapper the shard manager calls ------------------------------------------------------------------
+// `BufReader<std::fs::File>` opened on `self.path`
+pub struct VxFileReader { pub x: u8 }
+impl VxStream for VxFileReader {
+    uninterp spec fn bytes(&self) -> Seq<u8>;
+    uninterp spec fn pos(&self) -> int;
+}
+impl Read for VxFileReader { }
+impl Seek for VxFileReader {
+    #[verifier::external_body]
+    fn seek(&mut self, to: SeekFrom) -> (r: std::result::Result<u64, IoError>) { unimplemented!() }
+}
+impl MDBShardFile {
+    // stub: opens the shard file; `Ok(None)` when it has been deleted meanwhile. A reader it yields reads the file's content.
+    #[verifier::external_body]
+    fn get_reader_if_present(&self) -> (r: Result<Option<VxFileReader>>)
+        ensures r matches Ok(Some(rd)) ==> rd.bytes() == file_bytes(*self),
+    { unimplemented!() }
+
+//@ extract mdb_shard/src/shard_file_handle.rs in `impl MDBShardFile` fn chunk_hash_dedup_query_direct
+//@ ret r
+//@ contract
+        requires direct_pre(file_bytes(*self), self.shard, cas_block_index, cas_chunk_offset),
+        ensures /*@C05,C18*/ direct_post(file_bytes(*self), self.shard, query_hashes@, cas_block_index, cas_chunk_offset, r),
 //@ end
 }
 
